@@ -7152,8 +7152,12 @@ func typeShapeMatches(arg, param ir.TypeInner) bool {
 		_, ok := arg.(ir.StructType)
 		return ok
 	case ir.PointerType:
-		_, ok := arg.(ir.PointerType)
-		return ok
+		switch arg.(type) {
+		case ir.PointerType, ir.ValuePointerType:
+			// &m[i] (a matrix column) resolves to a value pointer
+			return true
+		}
+		return false
 	case ir.AtomicType:
 		_, ok := arg.(ir.AtomicType)
 		return ok
